@@ -351,63 +351,97 @@ func c09IndexID(c *cx, rid string, f *eng.Fn, via string) {
 				}
 			}
 			// (a) sentinel results
-			if strings.HasPrefix(id, "strings.Index") || strings.HasPrefix(id, "bytes.Index") || strings.HasPrefix(id, "strings.LastIndex") || strings.HasPrefix(id, "bytes.LastIndex") {
+			// the repository's own look-ups that report "not found" as index -1
+			ownLookup := id == "internal/attr.Own" || id == "internal/attr.Get" || id == "xmpp.getIDTyp"
+			if strings.HasPrefix(id, "strings.Index") || strings.HasPrefix(id, "bytes.Index") || strings.HasPrefix(id, "strings.LastIndex") || strings.HasPrefix(id, "bytes.LastIndex") || ownLookup {
 				as, ok := g.Parent(e).(*ast.AssignStmt)
 				if !ok {
 					return true
 				}
-				v := rootLocal(f, as.Lhs[0])
-				if v == nil {
-					return true
+				lhsIdx := []int{0}
+				if id == "xmpp.getIDTyp" {
+					lhsIdx = []int{0, 1}
 				}
-				forms := g.VarForms(v)
-				// the call's own normal form as well: a condition reached through a
-				// named boolean is normalised at the boolean's definition, where the
-				// result may still be expandable
-				if ept, ok := g.Where(e); ok {
-					forms = append(forms, f.Norm(e, &ept))
-				}
-				bad := ""
-				f.WalkBody(func(m ast.Node) bool {
-					var bounds []ast.Expr
-					switch s := m.(type) {
-					case *ast.SliceExpr:
-						bounds = []ast.Expr{s.Low, s.High, s.Max}
-					case *ast.IndexExpr:
-						bounds = []ast.Expr{s.Index}
-					default:
-						return true
+				for _, li := range lhsIdx {
+					if li >= len(as.Lhs) {
+						continue
 					}
-					for _, b := range bounds {
-						if b == nil {
-							continue
-						}
-						uses := false
-						ast.Inspect(b, func(y ast.Node) bool {
-							if idn, ok := y.(*ast.Ident); ok && info.Uses[idn] == types.Object(v) {
-								uses = true
-							}
+					v := rootLocal(f, as.Lhs[li])
+					if v == nil {
+						continue
+					}
+					forms := g.VarForms(v)
+					// the call's own normal form as well: a condition reached through a
+					// named boolean is normalised at the boolean's definition, where the
+					// result may still be expandable
+					if ept, ok := g.Where(e); ok {
+						forms = append(forms, f.Norm(e, &ept))
+					}
+					bad := ""
+					f.WalkBody(func(m ast.Node) bool {
+						var bounds []ast.Expr
+						switch s := m.(type) {
+						case *ast.SliceExpr:
+							bounds = []ast.Expr{s.Low, s.High, s.Max}
+						case *ast.IndexExpr:
+							bounds = []ast.Expr{s.Index}
+						default:
 							return true
-						})
-						if !uses {
-							continue
 						}
-						pt, ok := g.Where(m)
-						if !ok || !g.Live(pt) {
-							continue
+						for _, b := range bounds {
+							if b == nil {
+								continue
+							}
+							uses := false
+							ast.Inspect(b, func(y ast.Node) bool {
+								if idn, ok := y.(*ast.Ident); ok && info.Uses[idn] == types.Object(v) {
+									uses = true
+								}
+								return true
+							})
+							if !uses {
+								continue
+							}
+							pt, ok := g.Where(m)
+							if !ok || !g.Live(pt) {
+								continue
+							}
+							var pats []string
+							for _, fm := range forms {
+								pats = append(pats, "!eq("+fm+",-1)", "!lt("+fm+",0)", "lt(-1,"+fm+")", "lt(0,"+fm+")", "!lt("+fm+",1)")
+							}
+							guard, _ := g.DominatedAny(pt, pats)
+							if !guard {
+								// value-flow form of the same question: does the definition
+								// that may hold -1 reach the use on a path that neither
+								// redefines the variable (`if i == -1 { i = len(x); ... }`)
+								// nor crosses an edge that excludes -1?
+								cut := eng.Cut{}
+								for _, pat := range pats {
+									for _, ce := range g.EdgesMatching(pat) {
+										cut[ce.E] = true
+									}
+								}
+								reaches := false
+								for _, d := range g.ReachingDefsCut(v, pt, cut) {
+									if d.Node == ast.Node(as) {
+										reaches = true
+									}
+								}
+								guard = !reaches
+							}
+							if !guard && bad == "" {
+								bad = "result of " + id + " used as bound/index at " + c.p.Pos(m.Pos()) + " without excluding -1; reached via " + via
+							}
 						}
-						var pats []string
-						for _, fm := range forms {
-							pats = append(pats, "!eq("+fm+",-1)", "!lt("+fm+",0)", "lt(-1,"+fm+")", "lt(0,"+fm+")", "!lt("+fm+",1)")
-						}
-						guard, _ := g.DominatedAny(pt, pats)
-						if !guard && bad == "" {
-							bad = "result of " + id + " used as bound/index at " + c.p.Pos(m.Pos()) + " without excluding -1; reached via " + via
-						}
+						return true
+					})
+					what := "sentinel result of " + id
+					if li > 0 {
+						what += " #" + itoa(li)
 					}
-					return true
-				})
-				c.r.Check(rid, f, "sentinel result of "+id, "E-idx(a): the -1 result of Index* never reaches a slice bound or index", e.Pos(), bad == "", bad)
+					c.r.Check(rid, f, what, "E-idx(a): the -1 result of Index* (and of the attribute look-ups) never reaches a slice bound or index", e.Pos(), bad == "", bad)
+				}
 			}
 		}
 		return true
